@@ -396,9 +396,12 @@ def main(out_path: str):
         for n in ast.walk(ast.parse(inspect.getsource(utils.default_is_dynamic)))
         if isinstance(n, ast.Set) and all(isinstance(e, ast.Constant) and isinstance(e.value, str) for e in n.elts)
     ]
-    _sets.sort(key=lambda x: "OPS_MATH" in x)
-    parts.append(list_s("defaultHyphenTypes", _sets[0] if len(_sets) == 2 else [], "utils.default_is_dynamic: element types whose literal '-' is not an operator"))
-    parts.append(list_s("defaultDynamicTokenNames", _sets[1] if len(_sets) == 2 else [], "utils.default_is_dynamic: lexer rule names that make a default dynamic"))
+    _hy = [x for x in _sets if "date" in x]
+    _dy = [x for x in _sets if "OPS_MATH" in x]
+    _ov = [x for x in _sets if "OPS_MATH" not in x and "date" not in x]
+    parts.append(list_s("defaultHyphenTypes", _hy[0] if len(_hy) == 1 else [], "utils.default_is_dynamic: data types whose literal '-' is not an operator"))
+    parts.append(list_s("defaultDynamicTokenNames", _dy[0] if len(_dy) == 1 else [], "utils.default_is_dynamic: lexer rule names that make a default dynamic"))
+    parts.append(list_s("defaultHyphenOverrideNames", _ov[0] if len(_ov) == 1 else [], "utils.default_is_dynamic: token names that keep a hyphenated date/geo default dynamic (d989f12)"))
     # C12: container backends (dataclass fields, parser order, regex sources)
     import dataclasses as _dc
     parts.append(list_s("definitionDataFields", [f.name for f in _dc.fields(xls2json_backends.DefinitionData)], "xls2json_backends.DefinitionData field names, in order"))
